@@ -285,12 +285,25 @@ def yomiEdits (Y : Yomi) (s : List Nat) : List Edit := yomiGo Y 0 s
 
 /-! ## `resolve_edits` at code-point granularity -/
 
+/-- `l.length < k`, looking at no more than `k` items (keeps `applyGo` linear on long texts) -/
+def lenLt {α : Type} : List α → Nat → Bool
+  | _, 0 => false
+  | [], _ + 1 => true
+  | _ :: t, k + 1 => lenLt t k
+
+theorem lenLt_iff {α : Type} (l : List α) (k : Nat) : lenLt l k = true ↔ l.length < k := by
+  induction l generalizing k with
+  | nil => cases k <;> simp [lenLt]
+  | cons a t ih => cases k with
+    | zero => simp [lenLt]
+    | succ k => simp [lenLt, ih]
+
 /-- text only: `target.push_str(&source[start..edit.start])`, replacement, `start = edit.end`, tail.
 `none` = the slice panics (edit out of order / out of range). -/
 def applyGo : Nat → List Edit → List Nat → Option (List Nat)
   | _, [], s => some s
   | pos, e :: es, s =>
-    if e.s < pos ∨ e.e < e.s ∨ pos + s.length < e.e then none
+    if e.s < pos ∨ e.e < e.s ∨ lenLt s (e.e - pos) then none
     else (applyGo e.e es (s.drop (e.e - pos))).map (fun t => s.take (e.s - pos) ++ e.rep ++ t)
 
 def applyEdits (es : List Edit) (s : List Nat) : Option (List Nat) := applyGo 0 es s
@@ -310,7 +323,7 @@ def replP (o1 o2 : Nat) : List Nat → List (Nat × Nat)
 def applyGoP (endOff : Nat) : Nat → List Edit → List (Nat × Nat) → Option (List (Nat × Nat))
   | _, [], l => some l
   | pos, e :: es, l =>
-    if e.s < pos ∨ e.e < e.s ∨ pos + l.length < e.e then none
+    if e.s < pos ∨ e.e < e.s ∨ lenLt l (e.e - pos) then none
     else
       let o1 := offHead endOff (l.drop (e.s - pos))
       let tail := l.drop (e.e - pos)
@@ -343,6 +356,184 @@ def initGo : Nat → List Nat → List (Nat × Nat) × Nat
 def initBuf (s : List Nat) : Buf := let r := initGo 0 s; ⟨r.1, r.2⟩
 
 def Buf.text (b : Buf) : List Nat := b.body.map (·.1)
+
+/-! ## the recycled `InputBuffer`: the fields the input-text plugins read or write
+
+`sudachi/src/input_text/buffer/mod.rs`: `reset`, `start_build`, `refresh_chars`, `with_editor` + `commit`
+(`resolve_edits` with its length guard), `build`; `analysis/stateful_tokenizer.rs` `reset`/`do_tokenize`
+(input part) and `MorphemeList::collect_results` (`swap_result`: tokenizer and list swap their buffers).
+
+Every field is an explicit list and every operation is the literal sequence of buffer events: `clear`,
+`push_str`/`extend` (an APPEND to what the field holds), `swap`.  So a missing `clear()` is expressible:
+the stale content stays in front.  `m2o` is kept at character granularity (entry of each character's first
+byte, then the sentinel entry), as everywhere in this file. -/
+
+inductive BState where
+  | clean | rw | ro
+deriving Repr, DecidableEq
+
+/-- which `reset` runs: `cur` = the code (`reset` clears `mod_chars`); `lateClear` = the seeded change C07b
+(index tables cleared at the start of `build` instead of in `reset`), used by a counterexample only -/
+inductive ResetV where
+  | cur | lateClear
+deriving Repr, DecidableEq
+
+structure RBuf where
+  original : List Nat
+  modified : List Nat
+  m2o : List Nat
+  /-- `modified_2` / `m2o_2`: scratch of `commit`; after the swap they hold the text before the edit, i.e.
+  across analyses the text of the call before last on this object -/
+  modified2 : List Nat
+  m2o2 : List Nat
+  /-- `mod_chars`, the cache behind `current_chars()` -/
+  chars : List Nat
+  state : BState
+deriving Repr, DecidableEq
+
+/-- `InputBuffer::default()` -/
+def RBuf.new : RBuf := ⟨[], [], [], [], [], [], .clean⟩
+
+/-- UTF-8 length of a text -/
+def bytes (s : List Nat) : Nat := (s.map utf8w).sum
+
+/-- `0..=len` observed at character starts, then the sentinel -/
+def identMap (s : List Nat) : List Nat := (initGo 0 s).1.map (·.2) ++ [(initGo 0 s).2]
+
+inductive Fail where
+  | tooLong     -- `Err(InputTooLong)`
+  | panic       -- slice/index panic, `debug_assert`
+deriving Repr, DecidableEq
+
+/-- `InputBuffer::reset` (the fields of this model; the other index tables are C10's) -/
+def RBuf.reset (v : ResetV) (b : RBuf) : RBuf :=
+  { b with original := [], modified := [], m2o := [],
+           chars := (match v with | .cur => [] | .lateClear => b.chars), state := .clean }
+
+/-- `reset().push_str(text)` -/
+def RBuf.fill (b : RBuf) (t : List Nat) : RBuf := { b with original := b.original ++ t }
+
+/-- `start_build`: length limit first, then `debug_assert_eq!(state, Clean)`, then
+`modified.push_str(&original)` and `m2o.extend(0..modified.len() + 1)` — both APPEND -/
+def RBuf.startBuild (b : RBuf) : Except Fail RBuf :=
+  if bytes b.original > 49149 then .error .tooLong
+  else if b.state != .clean then .error .panic
+  else .ok { b with state := .rw, modified := b.modified ++ b.original,
+                    m2o := b.m2o ++ identMap (b.modified ++ b.original) }
+
+/-- `refresh_chars`: recomputed only when the cache is EMPTY -/
+def RBuf.refreshChars (b : RBuf) : RBuf :=
+  if b.chars.isEmpty then { b with chars := b.modified } else b
+
+/-- the text with the offset-map entry of each character's first byte, and the sentinel entry;
+`none` = the two vectors are not aligned (cannot happen after `reset`: `RBuf.aligned_*`) -/
+def pair? : List Nat → List Nat → Option (List (Nat × Nat) × Nat)
+  | [], [e] => some ([], e)
+  | c :: cs, o :: os => (pair? cs os).map (fun r => ((c, o) :: r.1, r.2))
+  | _, _ => none
+
+/-- byte offset of every character boundary: `[0, w c₀, w c₀ + w c₁, …, len]` -/
+def prefixBytes : Nat → List Nat → List Nat
+  | acc, [] => [acc]
+  | acc, c :: cs => acc :: prefixBytes (acc + utf8w c) cs
+
+/-- byte offset of character index `i`, the end of the text for an index beyond it -/
+def offAt (offs : Array Nat) (i : Nat) : Nat :=
+  match offs[i]? with
+  | some x => x
+  | none => match offs.back? with
+    | some x => x
+    | none => 0
+
+/-- `resolve_edits`, first statement: the length of the result, from the edits alone
+(`len + Σ (with.len() - what.len())`; `what.len()` is 0 for an inverted range) -/
+def newLen (cur : List Nat) (es : List Edit) : Int :=
+  let offs := (prefixBytes 0 cur).toArray
+  es.foldl (fun len e => len + ((bytes e.rep : Int) - ((offAt offs e.e - offAt offs e.s : Nat) : Int))) (bytes cur : Int)
+
+/-- `InputBuffer::commit`: nothing for an empty edit list; else clear `mod_chars` and the scratch pair,
+`resolve_edits` into the scratch pair (nothing written when the result exceeds 65 535 bytes: `Err`),
+swap.  Returns the buffer also when it fails (the object lives on). -/
+def RBuf.commit (b : RBuf) (es : List Edit) : RBuf × Option Fail :=
+  if es.isEmpty then (b, none)
+  else
+    let b1 : RBuf := { b with chars := [], modified2 := [], m2o2 := [] }
+    if newLen b.modified es > 65535 then (b1, some .tooLong)
+    else match pair? b.modified b.m2o with
+      | none => (b1, some .panic)
+      | some (body, endOff) =>
+        match applyGoP endOff 0 es body with
+        | none => (b1, some .panic)
+        | some l =>
+          let r := force0 ⟨l, endOff⟩
+          ({ b1 with modified := b1.modified2 ++ r.text, m2o := b1.m2o2 ++ (r.body.map (·.2) ++ [r.endOff]),
+                     modified2 := b.modified, m2o2 := b.m2o }, none)
+
+/-- `InputBuffer::build`, the fields of this model: `mod_chars.clear()` + one `push` per character;
+`fill_orig_b2c` overwrites `m2o_2` with the byte→character table of the original -/
+def RBuf.build (b : RBuf) : RBuf :=
+  { b with state := .ro, chars := b.modified, m2o2 := List.range (b.original.length + 1) }
+
+/-- an input-text plugin: `uses_chars()` and the edits `rewrite_impl` pushes, a function of what the
+public accessors of an RW buffer give it: `original()`, `current()`, the offset map, `current_chars()` -/
+structure Plug where
+  usesChars : Bool
+  edits : (original modified m2o chars : List Nat) → List Edit
+
+/-- `InputTextPlugin::rewrite` = `refresh_chars` if the plugin uses them, `with_editor` + `commit` -/
+def RBuf.rewrite (p : Plug) (b : RBuf) : RBuf × Option Fail :=
+  let b := if p.usesChars then b.refreshChars else b
+  b.commit (p.edits b.original b.modified b.m2o b.chars)
+
+/-- text and offset map after a plugin -/
+abbrev Stage := List Nat × List Nat
+
+/-- `rewrite_input`: the plugins in order, `?` on the first failure -/
+def RBuf.rewriteAll : List Plug → RBuf → List Stage → RBuf × List Stage × Option Fail
+  | [], b, acc => (b, acc.reverse, none)
+  | p :: ps, b, acc =>
+    match b.rewrite p with
+    | (b', some f) => (b', acc.reverse, some f)
+    | (b', none) => RBuf.rewriteAll ps b' ((b'.modified, b'.m2o) :: acc)
+
+/-- `tok.reset().push_str(t)` and the input part of `do_tokenize`: `start_build`, `rewrite_input`, `build` -/
+def RBuf.analyse (v : ResetV) (ps : List Plug) (b : RBuf) (t : List Nat) : RBuf × List Stage × Option Fail :=
+  let b := (b.reset v).fill t
+  match b.startBuild with
+  | .error f => (b, [], some f)
+  | .ok b =>
+    match RBuf.rewriteAll ps b [] with
+    | (b', st, some f) => (b', st, some f)
+    | (b', st, none) => (b'.build, st, none)
+
+/-- a long-lived analyser: the tokenizer's buffer and the result list's buffer -/
+structure Analyser where
+  tok : RBuf
+  lst : RBuf
+deriving Repr, DecidableEq
+
+def Analyser.new : Analyser := ⟨RBuf.new, RBuf.new⟩
+
+/-- one `reset / push_str / do_tokenize` and, when it succeeded, `collect_results` (swap) -/
+def Analyser.step (v : ResetV) (ps : List Plug) (a : Analyser) (t : List Nat) : Analyser :=
+  match a.tok.analyse v ps t with
+  | (b, _, none) => ⟨a.lst, b⟩
+  | (b, _, some _) => ⟨b, a.lst⟩
+
+def Analyser.run (v : ResetV) (ps : List Plug) (a : Analyser) (hist : List (List Nat)) : Analyser :=
+  hist.foldl (Analyser.step v ps) a
+
+/-- `rewrite_impl` of the default plugin on a buffer: the path is chosen from `current_chars()`, the
+edits are computed on `current()` -/
+def defaultEditsOn (U : Uni) (T : Table) (earliest : Bool) (chars cur : List Nat) : List Edit :=
+  if useSlow U chars then replaceSlow U T earliest cur else replaceFast T cur
+
+def defaultPlug (U : Uni) (T : Table) (earliest : Bool) : Plug :=
+  ⟨true, fun _ cur _ chars => defaultEditsOn U T earliest chars cur⟩
+
+def psmPlug (marks rep : List Nat) : Plug := ⟨false, fun _ cur _ _ => psmEdits marks rep cur⟩
+
+def yomiPlug (Y : Yomi) : Plug := ⟨false, fun _ cur _ _ => yomiEdits Y cur⟩
 
 /-! ## driver entry -/
 
@@ -397,6 +588,19 @@ def fact? (s : List Char) : Option Fact :=
 def facts? (s : List Char) : Option (Array Fact) :=
   (Wire.allSome ((Wire.items ';' s).map fact?)).map List.toArray
 
+/-- a text on the wire: code points separated by `,`, an item `c*n` standing for `n` copies of `c` -/
+def rleItem? (s : List Char) : Option (List Nat) :=
+  match Wire.splitOn '*' s with
+  | [c] => (Wire.nat? c).map (fun c => [c])
+  | [c, n] => match Wire.nat? c, Wire.nat? n with
+    | some c, some n => some (List.replicate n c)
+    | _, _ => none
+  | _ => none
+
+def text? (s : List Char) : Option (List Nat) :=
+  if s = ['-'] then some [] else     -- an empty text inside a `;`-separated list
+  (Wire.allSome ((Wire.items ',' s).map rleItem?)).map List.flatten
+
 structure Setup where
   table : Option Table          -- `none` when the pipeline has no default plugin
   earliest : Bool
@@ -415,36 +619,52 @@ def loadOk (pipe : List Char) (def? : Option (Option Table)) (S : Setup) : Bool 
     else if p = 'Y' then S.yn ≥ 1
     else false)
 
-def showBuf (b : Buf) : String :=
-  "t=" ++ Wire.showNats b.text ++ " m=" ++ Wire.showNats (b.body.map (·.2) ++ [b.endOff])
+/-- the configured plugin behind a letter of `pipe=` -/
+def plugOf (a : Array Fact) (S : Setup) (p : Char) : Plug :=
+  if p = 'D' then (match S.table with
+    | some T => defaultPlug (uniOf a) T S.earliest
+    | none => ⟨true, fun _ _ _ _ => []⟩)
+  else if p = 'P' then psmPlug S.marks S.rep
+  else yomiPlug ⟨fun c => match findFact a c with | some f => f.kanji | none => false,
+                 fun c => match findFact a c with | some f => f.kana | none => false, S.yl, S.yr, S.yn⟩
 
-/-- run the plugins in order; every stage is recorded (`Except.error` = `bad-facts` / `PANIC`) -/
-def runPipe (a : Array Fact) (S : Setup) : List Char → Buf → List Buf → Except String (List Buf)
-  | [], _, acc => .ok acc.reverse
-  | p :: ps, b, acc =>
-    if !covered a b.text then .error "bad-facts" else
-    let U := uniOf a
-    let es : List Edit :=
-      if p = 'D' then (match S.table with | some T => defaultEdits U T S.earliest b.text | none => [])
-      else if p = 'P' then psmEdits S.marks S.rep b.text
-      else
-        let Y : Yomi := ⟨fun c => match findFact a c with | some f => f.kanji | none => false,
-                         fun c => match findFact a c with | some f => f.kana | none => false, S.yl, S.yr, S.yn⟩
-        yomiEdits Y b.text
-    match commit b es with
-    | none => .error "PANIC"
-    | some b' => runPipe a S ps b' (b' :: acc)
+def showStage (a : Array Fact) (p : Char) (input : List Nat) (st : Stage) : String :=
+  "t=" ++ Wire.showNats st.1 ++ " m=" ++ Wire.showNats st.2 ++
+    (if p = 'D' then " q=" ++ (if useSlow (uniOf a) input then "1" else "0") else "")
 
-def showRun (r : Except String (List Buf)) : String :=
-  match r with
-  | .error e => e
-  | .ok bs => Wire.joinWith " " ("ok" :: bs.map showBuf)
+/-- the stages with, for the default plugin, the path `rewrite_impl` chooses on the stage's input -/
+def showStages (a : Array Fact) : List Char → List Nat → List Stage → List String
+  | p :: ps, input, st :: sts => showStage a p input st :: showStages a ps st.1 sts
+  | _, _, _ => []
 
-def showLast (r : Except String (List Buf)) : String :=
-  match r with
-  | .error e => e
-  | .ok bs => match bs.getLast? with
-    | some b => Wire.showNats b.text
+def stateNum : BState → Nat
+  | .clean => 0 | .rw => 1 | .ro => 2
+
+/-- every text a plugin of the run reads has facts for all its characters -/
+def allCovered (a : Array Fact) (t : List Nat) (sts : List Stage) : Bool :=
+  covered a t && sts.all (fun st => covered a st.1)
+
+/-- the answer for one analysed text; `rec` = also print the hidden state of the tokenizer's buffer -/
+def showAnalysis (a : Array Fact) (pipe : List Char) (t : List Nat) (r : RBuf × List Stage × Option Fail)
+    (rec : Bool) : String :=
+  if !allCovered a t r.2.1 then "bad-facts" else
+  match r.2.2 with
+  | some .panic => "PANIC"
+  | failed =>
+    let body := Wire.joinWith " " ("ok" :: showStages a pipe t r.2.1)
+    let body := if failed.isSome then body ++ " toolong" else body
+    let body := if rec && failed.isNone then
+        body ++ " fin=" ++ Wire.showNats r.1.modified ++ " fm=" ++ Wire.showNats r.1.m2o else body
+    if rec then body ++ " rec=" ++ toString (stateNum r.1.state) ++ ":" ++ toString (bytes r.1.modified2) else body
+
+/-- final text of the last stage only (sweep lines) -/
+def showLast (a : Array Fact) (t : List Nat) (r : RBuf × List Stage × Option Fail) : String :=
+  if !allCovered a t r.2.1 then "bad-facts" else
+  match r.2.2 with
+  | some .panic => "PANIC"
+  | some .tooLong => "toolong"
+  | none => match r.2.1.getLast? with
+    | some st => Wire.showNats st.1
     | none => "-"
 
 def setup? (toks : List (List Char)) : Option (List Char × Option (Option Table) × Setup) :=
@@ -465,7 +685,9 @@ def setup? (toks : List (List Char)) : Option (List Char × Option (Option Table
     | _, _, _, _, _ => none
   | _, _, _, _, _, _, _ => none
 
-/-- `C07 run  idx= pipe=<D|P|Y...> early=<0|1> def=<hex> pm= pr= yl= yr= yn= uni=<facts> text=<cps>`
+/-- `C07 run  idx= pipe=<D|P|Y...> early=<0|1> def=<hex> pm= pr= yl= yr= yn= uni=<facts> [hist=<text;text;...>] text=<text>`
+      without `hist=`: the text on a new buffer (no `build`); with `hist=` (possibly empty): on the tokenizer of an
+      analyser (tokenizer + result list, swapping) that analysed the history texts before
     `C07 sweep ... texts=<cps;cps;...>` (same set-up, many texts, final stage only) -/
 def handle (op : List Char) (toks : List (List Char)) : String :=
   match setup? toks, Wire.kv? toks "uni" with
@@ -474,17 +696,24 @@ def handle (op : List Char) (toks : List (List Char)) : String :=
     | none => "bad-op"
     | some a =>
       if !loadOk pipe def? S then "err" else
+      let ps := pipe.map (plugOf a S)
       if op = "run".toList then
         match Wire.kv? toks "text" with
-        | some t => (match Wire.natList? t with
-          | some s => showRun (runPipe a S pipe (initBuf s) [])
+        | some t => (match text? t with
+          | some s =>
+            match Wire.kv? toks "hist" with
+            | none => showAnalysis a pipe s (RBuf.new.analyse .cur ps s) false
+            | some h =>
+              match Wire.allSome ((Wire.items ';' h).map text?) with
+              | some hs => showAnalysis a pipe s ((Analyser.run .cur ps Analyser.new hs).tok.analyse .cur ps s) true
+              | none => "bad-op"
           | none => "bad-op")
         | none => "bad-op"
       else if op = "sweep".toList then
         match Wire.kv? toks "texts" with
         | some t =>
           match Wire.allSome ((Wire.items ';' t).map Wire.natList?) with
-          | some ts => "ok " ++ Wire.joinWith ";" (ts.map (fun s => showLast (runPipe a S pipe (initBuf s) [])))
+          | some ts => "ok " ++ Wire.joinWith ";" (ts.map (fun s => showLast a s (RBuf.new.analyse .cur ps s)))
           | none => "bad-op"
         | none => "bad-op"
       else "bad-op"
